@@ -127,7 +127,7 @@ Section State.
     (forall m, u_model u = Some m ->
        f_model st' = Some m \/ (exists c, f_model st = Some c /\ model_close O c m = true /\ f_model st' = Some c)).
   Proof.
-    intros [c [Hc [Wc G]]] Wu Hns. unfold step. rewrite Hc.
+    intros [c [Hc [Wc G]]] Wu Hns. unfold step, step_gen. cbn [orb]. rewrite Hc.
     destruct G as [p0 [mn0 [G1 [G2 [G3 [G4 [G5 [G6 G7]]]]]]]].
     assert (G : grid_ok st (m_anis c) (m_dim c)) by (exists p0, mn0; auto 10).
     set (tmp := match u_model u with Some m => m | None => c end).
@@ -192,16 +192,23 @@ Section State.
   (* ---------- assignments of values that alias the stored ones.  The setters always call update, and update
      recomputes delta_k and the grid from the value it is given, so the state before the assignment need not
      satisfy the invariant in the edited component. *)
-  Lemma step_with_period st u st' c pv : f_model st = Some c -> wf_model c -> wf_upd u -> u_period u = Some pv ->
+  Lemma step_gen_eff force st u st' c pv : f_model st = Some c -> wf_model c -> wf_upd u ->
+    (match u_period u with
+     | Some p => Some p
+     | None => if orb force (match u_model u with Some m => negb (model_close O c m) | None => false end)
+               then f_period st else None
+     end) = Some pv ->
     (u_mode_no u = None ->
        exists mn0, f_mode_no st = Some mn0 /\ Forall (fun k => Z.even k = true /\ (0 <= k)%Z) mn0) ->
-    step O st u = (st', Ok) -> Inv st'.
+    step_gen O force st u = (st', Ok) ->
+    Inv st' /\ f_model st' = Some (match u_model u with Some m => m | None => c end).
   Proof.
-    intros Hc Wc Wu Hp Hmn. unfold step. rewrite Hc, Hp.
+    intros Hc Wc Wu Heff Hmn. unfold step_gen. rewrite Hc.
     set (tmp := match u_model u with Some m => m | None => c end).
     replace (match u_model u with Some m => Some m | None => Some c end) with (Some tmp)
       by (unfold tmp; destruct (u_model u); reflexivity).
-    set (changed := match u_model u with Some m => negb (model_close O c m) | None => false end).
+    set (changed := orb force (match u_model u with Some m => negb (model_close O c m) | None => false end)) in *.
+    cbv zeta. rewrite Heff.
     assert (Wt : wf_model tmp). { unfold tmp. unfold wf_upd in Wu. destruct (u_model u); auto. }
     destruct (fill_to_dim (m_dim tmp) pv) as [p|] eqn:Efp; [|discriminate].
     destruct (fill_to_dim_facts (fun _ => True) _ pv p Efp) as [Lp _]. { apply Forall_forall; auto. }
@@ -209,9 +216,10 @@ Section State.
     pose proof (delta_k_len p (m_anis tmp) (m_dim tmp) Lp Wt2 Wt1) as Ldk.
     destruct (u_mode_no u) as [mv|] eqn:Emv.
     - intros H. apply mode_block_ok with (a := m_anis tmp) in H.
-      + destruct H as [H1 H2]. exists tmp. split.
+      + destruct H as [H1 H2].
+        assert (Hm : f_model st' = Some tmp).
         { rewrite H2. unfold new_copy, tmp. simpl. rewrite ?Emv, ?orb_true_r. destruct (u_model u); auto. }
-        split; [split; auto|exact H1].
+        split; [|exact Hm]. exists tmp. split; [exact Hm|]. split; [split; auto|exact H1].
       + exists p. simpl. auto.
       + rewrite Emv. discriminate.
     - destruct (Hmn eq_refl) as [mn0 [G2 G7]]. rewrite G2.
@@ -219,14 +227,43 @@ Section State.
       destruct (fill_to_dim_facts (fun k => Z.even k = true /\ (0 <= k)%Z) _ mn0 mn Efm G7) as [Lmn Hev].
       destruct (set_modes_stored mn (delta_k O p (m_anis tmp))) as [S1 [S2 S3]]; [lia|].
       intros H. apply mode_block_ok with (a := m_anis tmp) in H.
-      + destruct H as [H1 H2]. exists tmp. split.
+      + destruct H as [H1 H2].
+        assert (Hm : f_model st' = Some tmp).
         { rewrite H2. unfold new_copy, tmp. simpl. rewrite ?orb_true_r. destruct (u_model u); auto. }
-        split; [split; auto|exact H1].
+        split; [|exact Hm]. exists tmp. split; [exact Hm|]. split; [split; auto|exact H1].
       + exists p. simpl. auto.
       + intros _. exists p, (snd (set_modes O mn (delta_k O p (m_anis tmp)))).
         cbn [f_period f_mode_no f_dk f_modes f_model]. repeat split; auto; try lia.
         * unfold grid_of. rewrite S1. reflexivity.
         * apply S3. eapply Forall_impl; [|exact Hev]. intros k [Hk _]. exact Hk.
+  Qed.
+
+  Lemma step_with_period st u st' c pv : f_model st = Some c -> wf_model c -> wf_upd u -> u_period u = Some pv ->
+    (u_mode_no u = None ->
+       exists mn0, f_mode_no st = Some mn0 /\ Forall (fun k => Z.even k = true /\ (0 <= k)%Z) mn0) ->
+    step O st u = (st', Ok) -> Inv st'.
+  Proof.
+    intros Hc Wc Wu Hp Hmn H. apply (step_gen_eff false st u st' c pv) in H; auto. { tauto. } now rewrite Hp.
+  Qed.
+
+  (* m = gen.model; m.anis = x; gen.model = m  (also update(model=m, seed/period/mode_no ...) with that object):
+     the in-place edit changes only the stored model; update is handed the stored object itself, treats it as
+     changed and rebuilds delta_k and the grid from it — whatever the edit and whatever else is passed *)
+  Theorem alias_model st m_edit u st' : Inv st -> wf_model m_edit -> u_model u = Some m_edit ->
+    step_gen O true (edit_model st m_edit) u = (st', Ok) -> Inv st' /\ f_model st' = Some m_edit.
+  Proof.
+    intros [c [Hc [Wc [p0 [mn0 [G1 [G2 [G3 [G4 [G5 [G6 G7]]]]]]]]]]] Wm Hu H.
+    destruct (u_period u) as [pv|] eqn:Ep.
+    - apply (step_gen_eff true _ u st' m_edit pv) in H; auto.
+      + now rewrite Hu in H.
+      + unfold wf_upd. now rewrite Hu.
+      + now rewrite Ep.
+      + intros _. exists mn0. auto.
+    - apply (step_gen_eff true _ u st' m_edit p0) in H; auto.
+      + now rewrite Hu in H.
+      + unfold wf_upd. now rewrite Hu.
+      + rewrite Ep. cbn. exact G1.
+      + intros _. exists mn0. auto.
   Qed.
 
   (* gen.period <op>= c / per = gen.period; per[i] = v; gen.period = per : whatever the edit left in _period *)
@@ -242,7 +279,7 @@ Section State.
   Theorem alias_mode_no st mn_edit mv sd st' : Inv st ->
     step O (edit_mode_no st mn_edit) (mkUpd None sd None (Some mv)) = (st', Ok) -> Inv st'.
   Proof.
-    intros [c [Hc [Wc [p0 [mn0 [G1 [G2 [G3 [G4 [G5 [G6 G7]]]]]]]]]]]. unfold step.
+    intros [c [Hc [Wc [p0 [mn0 [G1 [G2 [G3 [G4 [G5 [G6 G7]]]]]]]]]]]. unfold step, step_gen. cbn [orb].
     cbn [u_model u_period u_mode_no u_seed edit_mode_no f_model f_period]. rewrite Hc.
     intros H. apply mode_block_ok with (a := m_anis c) in H.
     - destruct H as [H1 H2]. exists c. split; [|split; auto].
@@ -255,7 +292,7 @@ Section State.
   Theorem init_inv m period mode_no st : wf_model m -> init O m period mode_no = (st, Ok) ->
     Inv st /\ f_model st = Some m.
   Proof.
-    intros [W1 W2]. unfold init, step. cbn [u_model u_period u_mode_no u_seed f_model f_period fs_empty].
+    intros [W1 W2]. unfold init, step, step_gen. cbn [orb u_model u_period u_mode_no u_seed f_model f_period fs_empty].
     destruct (fill_to_dim (m_dim m) period) as [p|] eqn:Efp; [|discriminate].
     destruct (fill_to_dim_facts (fun _ => True) _ period p Efp) as [Lp _]. { apply Forall_forall; auto. }
     intros H. apply mode_block_ok with (a := m_anis m) in H.
@@ -263,6 +300,56 @@ Section State.
       exists m. repeat split; auto.
     - exists p. cbn. repeat split; auto. now apply delta_k_len.
     - cbn. discriminate.
+  Qed.
+
+  (* ---------- the grid is a function of the PRESENT (model copy, period, mode counts) only: two states that satisfy
+     the invariant and agree on these agree on delta_k and the mode grid, whatever their histories *)
+  Theorem history_independent st1 st2 : Inv st1 -> Inv st2 ->
+    f_model st1 = f_model st2 -> f_period st1 = f_period st2 -> f_mode_no st1 = f_mode_no st2 ->
+    f_dk st1 = f_dk st2 /\ f_modes st1 = f_modes st2.
+  Proof.
+    intros [c1 [M1 [_ [p1 [n1 [P1 [N1 [_ [_ [D1 [G1 _]]]]]]]]]]] [c2 [M2 [_ [p2 [n2 [P2 [N2 [_ [_ [D2 [G2 _]]]]]]]]]]] Em Ep En.
+    assert (c1 = c2) by congruence. assert (p1 = p2) by congruence. assert (n1 = n2) by congruence. subst.
+    split; congruence.
+  Qed.
+
+  Lemma fill_to_dim_id {A} dim (l : list A) : length l = dim -> (1 <= dim)%nat -> fill_to_dim dim l = Some l.
+  Proof.
+    intros H Hd. unfold fill_to_dim. rewrite firstn_all2 by lia. destruct l as [|x r]; [simpl in H; lia|].
+    rewrite H, Nat.sub_diag. simpl. now rewrite app_nil_r.
+  Qed.
+
+  Lemma set_modes_stored_id mn dk : length mn = length dk -> Forall (fun k => (0 <= k)%Z) mn ->
+    snd (set_modes O mn dk) = mn.
+  Proof.
+    unfold set_modes, mode_axes. simpl. revert dk. induction mn as [|n mn IH]; intros [|d dk] H HF; simpl in *; try lia; auto.
+    inversion HF; subst. rewrite arange_len, Z2Nat.id by auto. f_equal. apply IH; auto.
+  Qed.
+
+  (* ... in particular the state after any history equals, in every component, the state of a generator freshly
+     constructed from the present model copy, period and mode counts *)
+  Theorem equals_fresh st m p mn st0 : Inv st ->
+    f_model st = Some m -> f_period st = Some p -> f_mode_no st = Some mn ->
+    init O m p mn = (st0, Ok) -> st0 = st.
+  Proof.
+    intros HI Hm Hp Hn Hi. pose proof HI as HI'.
+    destruct HI' as [c [Mc [Wc [p1 [n1 [P1 [N1 [L1 [L2 [D1 [G1 F1]]]]]]]]]]].
+    assert (c = m) by congruence. assert (p1 = p) by congruence. assert (n1 = mn) by congruence. subst.
+    destruct (init_inv m p mn st0 Wc Hi) as [HI0 M0].
+    revert Hi. unfold init, step, step_gen. cbn [orb u_model u_period u_mode_no u_seed f_model f_period fs_empty].
+    destruct Wc as [W1 W2].
+    rewrite (fill_to_dim_id (m_dim m) p L1 W1). unfold mode_block. cbn [u_mode_no].
+    rewrite (fill_to_dim_id (m_dim m) mn L2 W1).
+    assert (Ev : forallb Z.even mn = true).
+    { apply forallb_forall. intros k Hk. rewrite Forall_forall in F1. now destruct (F1 k Hk). }
+    rewrite Ev. cbn [f_period f_dk f_model f_mode_no f_modes finish u_model orb].
+    intros H. inversion H; subst st0. clear H.
+    assert (Ldk : length (delta_k O p (m_anis m)) = m_dim m) by (apply delta_k_len; auto).
+    change (map (fun a : list T => Z.of_nat (length a)) (mode_axes O mn (delta_k O p (m_anis m))))
+      with (snd (set_modes O mn (delta_k O p (m_anis m)))).
+    rewrite set_modes_stored_id.
+    2:{ lia. } 2:{ eapply Forall_impl; [|exact F1]. intros k [_ Hk]. exact Hk. }
+    destruct st as [fm fp fn fd fg]. simpl in *. subst. unfold grid_of. reflexivity.
   Qed.
 
   (* histories: every update succeeds, passes well-formed models, and none is a sub-isclose change *)
